@@ -904,7 +904,8 @@ def _run(ctx, q):
 
 def _bandit_gen(rng):
     from props import c16
-    case = c16.gen_with("some", rng)
+    # (restart-heavy histories re-activate low-index emitters late: the order of the rows in ask matters then)
+    case = c16.gen_with("some", rng, style=rng.choice(["plain", "restarts"]))
     case["bandit"] = True
     return case
 
